@@ -937,7 +937,8 @@ def gen_hint(rng, depth=3, hashable=False, families=None, leafy=0.3):
         n = rng.randint(2, 3)
         a = [gen_hint(rng, d, hashable, families) for _ in range(n)]
         # X | Y needs at least one operand supporting __or__ : avoid all-None / literal-only forms
-        a = [x for x in a if x['k'] not in ('ref', 'lit', 'ann', 'newtype')] or [_gen_leaf(rng, hashable)]
+        # (subscripted PEP 695 aliases: CPython reorders them inside X | Y, which beartype refuses with a public exception)
+        a = [x for x in a if x['k'] not in ('ref', 'lit', 'ann', 'newtype', 'exo')] or [_gen_leaf(rng, hashable)]
         if all(x['k'] == 'none' for x in a):
             a.append({'k': 'cls', 'n': 'int'})
         if a[0]['k'] == 'none':
